@@ -31,6 +31,41 @@ CHECKS = {
             "Held on the observed executions: every aligned sensitive leaf of every class in every slot family is validated against the placeholder rules of the statement under 9 replacement strings.",
             "Validators are the driver's own; wrappers not listed in the statement are ordinary strings.",
             "DESIGN §4 C05"),
+    "C06": ("exploration",
+            "runtime monitor: offline checker over recorded outputs of line-sequence histories — marker-based identity/order, concatenation/permutation/duplication laws, byte equality across 40 channel variants, singleton references from fresh processes; race-detector reports counted",
+            "Held on the generated histories only (64 quick / 1 500 thorough sequences of up to 160 / 2 000 lines over 9 line classes, 5 flag sets incl. -w and -f).",
+            "'JSON object' is decided by the driver's strict reader; lines >= 64 KiB, invalid UTF-8 and duplicate keys are not generated here.",
+            "DESIGN §4 C06"),
+    "C07": ("exploration",
+            "runtime monitor: sandwich runs (sentinel, hostile, sentinel, ...) through the real CLI with sentinel-sequence / exit / stderr oracle and bisection, plus in-process calls with per-call recover under -race; limit-length lines at 3 positions",
+            "Held on the hostile lines produced: zone x {vocabulary key, wrapper} x value kind, every envelope key x value kind, every special code point in keys/strings, non-JSON token classes, fixture truncations at byte offsets, structural and byte-level fixture mutants, nesting to the line limit, under 6 modes.",
+            "Quick tier runs a quarter of the key x kind product and 2 of 6 modes per line through the CLI (3 of 6 in-process); native coverage-guided fuzzing is not used.",
+            "DESIGN §4 C07"),
+    "C08": ("fault_enumeration",
+            "runtime monitor: fault enumeration with recorded write-call logs — k-th Write fails/short for every k, k-th Read fails for every k under 3 chunkings and every byte offset, gzip streams cut at every offset and flipped at every byte (in-process, failing io.Reader/io.Writer), RLIMIT_FSIZE grid, /dev/full, reader-closed pipe and damaged .gz files through the CLI; thorough adds strace ENOSPC/EIO injection",
+            "Exhaustive over k / byte offsets for the listed inputs (27 inputs quick), not over inputs.",
+            "Byte flips inside gzip data: only 'no success on damaged data' and 'stop at a line boundary' are demanded; a cut exactly between two gzip members is a well-formed shorter stream and is not counted as a fault.",
+            "DESIGN §4 C08"),
+    "C09": ("exploration",
+            "runtime monitor: end-to-end round trip — every sensitive string leaf of `redact --encrypt` output decrypted (in-process for all, one `decrypt` process per sampled leaf) and compared with the planted value; exhaustive single-byte corruption / truncation of sampled ciphertexts and wrong keys must be rejected",
+            "Held on the generated strings/keys; corruption positions are exhaustive for the 24 (quick) sampled ciphertexts.",
+            "A base64 text edit that leaves the decoded bytes unchanged (unused trailing bits) is not an altered ciphertext.",
+            "DESIGN §4 C09"),
+    "C10": ("exploration",
+            "runtime monitor: three-way leaf-wise differential (input / placeholder-mode output / encrypt-mode output), plaintext<->ciphertext bimap over two processes and two files per key, in-process decryption of every distinct ciphertext, whole-line leak search, unusable key materials injected through the API",
+            "Held on the generated multi-line inputs with pools of equal and near-duplicate literals (also across $oid/$date/$binary positions).",
+            "Leaves whose input equals a placeholder constant are ambiguous and skipped (counted).",
+            "DESIGN §4 C10"),
+    "C11": ("fault_enumeration",
+            "runtime monitor: state machine over directory snapshots for every initial key-path state x run sequences of length 1-3 (real CLI processes), decryptability through the real decrypt command, strace syscall order 'key file closed before first write to the output file', EACCES injected with strace, GenerateKey distinctness",
+            "Exhaustive over the 23 listed states x 4 sequences; GenerateKey on 3 000 (quick) calls in two processes.",
+            "'valid+LF/CRLF' and URL-safe text may be accepted or refused (both consistent with the statement); unreadable needs strace (root sandbox).",
+            "DESIGN §4 C11"),
+    "C13": ("exploration",
+            "runtime monitor: relational oracle over HashName histories recorded at the API boundary (determinism across call orders / option histories / poisoned side table / two processes, injectivity, homomorphism over '.', '$'-insensitivity, form) plus pseudonyms read from real CLI -w / -f output",
+            "Exhaustive on the 65 640-name dictionary (length <= 3 over 40 symbols) + 100 000 identifiers (quick) under 7 replacement strings.",
+            "The SHA-256 formula is not pinned; names differing only by Unicode normalisation are different names.",
+            "DESIGN §4 C13"),
     "C19": ("exploration",
             "runtime monitor: two-pass fixed-point check — the first pass's output file is fed back through the CLI and compared as bytes",
             "Held on the generated files under 2^3 of -n -b -i × 5 replacement texts.",
